@@ -9,6 +9,8 @@ open Momo.Pool
 
     new id S A N C mgr | alloc id base1 base2 | alloc id fail | free id blk | dall id | merge id1 id2 | swap id1 id2
     | mctor newId srcId | massign dstId srcId | destroy id
+    | mergex id1 id2 (MergeFrom with CheckMode::exception: self = no-op, mismatch = E:invalid_argument, nothing changed)
+    | dif id blk… | sizemax | params S A N (pvCheckParams of the constructor: ok | E:invalid_argument | E:length)
 -/
 namespace Driver.PoolWorld
 
@@ -68,6 +70,31 @@ def step (s : St) : List String → St × String
         | .badAlloc _ _ => (s, "E:bad_alloc")
         | .stuck w => (s, s!"STUCK {w}")
       | _, _ => (s, "bad-pool")
+  -- `MergeFrom` of pools whose `Settings::checkMode` is `CheckMode::exception` (383-390): merging a pool into itself
+  -- returns at once; a difference in block size / alignment / count or managers that are not `IsEqual` make the
+  -- `MOMO_CHECK`s throw `std::invalid_argument` before anything was touched; otherwise the merge of the model.
+  -- (the cached-free-block count is not compared by the code; the harness keeps it equal)
+  | ["mergex", id1, id2] =>
+      match getObj s (nat! id1), getObj s (nat! id2) with
+      | some a, some b =>
+        if nat! id1 = nat! id2 then (s, s!"ok | - | {digest s.arena a} || {digest s.arena a}") else
+        if a.P.S ≠ b.P.S ∨ a.P.A ≠ b.P.A ∨ a.P.N ≠ b.P.N ∨ a.mgr ≠ b.mgr then
+          (s, s!"E:invalid_argument | - | {digest s.arena a} || {digest s.arena b}") else
+        match mergeFrom a.P a.pool b.pool with
+        | .ok b' a' evs =>
+          (setObj (setObj s (nat! id1) { a with pool := a' }) (nat! id2) { b with pool := b' },
+           s!"ok | {evStr s.arena a.mgr evs} | {digest s.arena { a with pool := a' }} || {digest s.arena { b with pool := b' }}")
+        | .badAlloc _ _ => (s, "E:bad_alloc")
+        | .stuck w => (s, s!"STUCK {w}")
+      | _, _ => (s, "bad-pool")
+  | "dif" :: id :: sel =>
+      match getObj s (nat! id) with
+      | none => (s, "bad-pool")
+      | some o =>
+        let chosen := sel.map fun a => s.arena + int! a
+        finishOp s (nat! id) o (deallocateIf o.P o.pool (fun b => chosen.contains b)) (fun tr => "[" ++ Driver.Pool.relList s.arena tr ++ "]")
+  | ["sizemax"] => (s, toString Driver.Pool.sizeMax)
+  | ["params", sS, sA, sN] => (s, Driver.Pool.checkParams ⟨int! sS, int! sA, int! sN, 0⟩)
   | ["swap", id1, id2] =>
       match getObj s (nat! id1), getObj s (nat! id2) with
       | some a, some b =>
